@@ -19,7 +19,7 @@ def gen_args(tier, seed):
 
 def _harness_args(a, trace, only=None):
     if a.get("scenarios"):
-        return ["scenarios", "-out", trace] + (["-only", only] if only else [])
+        return ["scenarios", "-out", trace] + (["-only", only] if only else []) + (["-probe", a["probe"]] if a.get("probe") is not None else [])
     if a.get("specreplay"):
         return ["specreplay", "-in", a["behs"], "-out", trace]
     if a.get("guards"):
@@ -33,6 +33,8 @@ def _harness_args(a, trace, only=None):
         out += ["-only", only]
     if a.get("lone"):
         out += ["-lone"]
+    if a.get("probe") is not None:
+        out += ["-probe", a["probe"]]
     return out
 
 
@@ -126,6 +128,8 @@ def judge(rep, pid, tier, seed, only=None, args=None, what="random adversarial s
             kinds[(e["ev"], e.get("msg", {}).get("k"), e.get("tmpl", ""))] += 1
             rep.distinct.add((e["ev"], e.get("msg", {}).get("k"), e.get("tmpl", ""), e["post"]["view"], e["post"]["prepared"], len(e.get("sent", []))))
     rep.extra["event_classes"] = len(kinds)
+    if any(e.get("ev") == "probe" for e in lines):
+        rep.extra["probes_on_replayed_copies"] = rep.extra.get("probes_on_replayed_copies", 0) + sum(1 for e in lines if e.get("ev") == "probe")
     rep.extra["commit_callbacks"] = sum(len(e.get("commits", [])) for e in lines if e.get("ev") != "init")
     verdicts = [e for e in lines if e.get("ev") == "liveness_verdict"]
     if verdicts:
@@ -229,8 +233,15 @@ PER_NODE = ("C07", "C08", "C09", "C10", "C12", "C17")   # properties about what 
 def simple_check(pid, tier, seed, extra=None):
     rep = vlib.Report(pid, tier, seed)
     rep.assumptions = list(ASSUME)
-    judge(rep, pid, tier, 0, args={"scenarios": True, "seed": 0}, what="directed schedules (attack library)")
-    judge(rep, pid, tier, seed)
+    if pid == "C11":
+        # every NEW_VIEW / VIEW_CHANGE and a share of the PREPAREs / COMMITs a correct node sends are also delivered at once to
+        # copies-by-replay of their correct recipients ("probe" lines)
+        rep.assumptions.append("a copy of a peer is a fresh real node given every input the peer has had (the harness fakes are deterministic); a copy that does not end in the peer's state is not used (counted)")
+        judge(rep, pid, tier, 0, args={"scenarios": True, "seed": 0, "probe": 100}, what="directed schedules (attack library), every send probed on replayed copies of its recipients")
+        judge(rep, pid, tier, seed, args=dict(gen_args(tier, seed), probe=15 if tier == "quick" else 30), what="random adversarial schedules, sends probed on replayed copies of their recipients")
+    else:
+        judge(rep, pid, tier, 0, args={"scenarios": True, "seed": 0}, what="directed schedules (attack library)")
+        judge(rep, pid, tier, seed)
     if pid in PER_NODE:
         # ONE correct node, every other key held by the adversary: per-node properties only (more than f Byzantine weight)
         only_tags = [p.lower() + "_" for p in PER_NODE]
